@@ -51,6 +51,11 @@ def gen_renewal_race(rng: random.Random) -> dict:
     faults = [{"kind": "pause", "actor": "c0", "op": "get", "cls": "LOCK", "nth": 2, "dt": pause},
               {"kind": "stall", "actor": "c1", "op": "put", "cls": "LOCK", "detail": {"if_match": True}, "nth": 1,
                "dt": rng.choice([1.0, 2.0, 5.0, 10.0])}]
+    if rng.random() < 0.5:
+        # the holder's FIRST renewal lands but its response is lost: whatever bookkeeping follows (ETag re-sync, write
+        # counter) must still make the NEXT renewal change the object's bytes
+        faults.append({"kind": "error_after", "proc": "p0", "op": "put", "cls": "LOCK", "detail": {"if_match": True}, "nth": 1,
+                       "exc": rng.choice(["InternalError", "EndpointConnectionError"])})
     return {"mode": "s3cas", "policy": common.gen_policy(rng, 600), "faults": faults, "actors": acts,
             "profile": "renewal_race"}
 
@@ -104,6 +109,10 @@ def gen(rng: random.Random, tier: str, idx: int) -> dict:
                                        "detail": {"if_match": True}, "nth": rng.choice([1, 1, 2]),
                                        "exc": rng.choice(["InternalError", "ServiceUnavailable", "EndpointConnectionError"]),
                                        "burst": rng.choice([1, 2, 3, 5])})
+            if rng.random() < 0.2:
+                plan["faults"].append({"kind": "error_after", "proc": f"p{rng.randrange(n)}", "op": "put", "cls": "LOCK",
+                                       "detail": {"if_match": True}, "nth": rng.choice([1, 2]),
+                                       "exc": rng.choice(["InternalError", "EndpointConnectionError"])})
             if rng.random() < 0.3:
                 plan["faults"].append({"kind": "stall", "proc": f"p{rng.randrange(n)}", "op": "put", "cls": "LOCK",
                                        "detail": {"if_match": True}, "nth": rng.choice([1, 2, 3]),
